@@ -5,4 +5,9 @@ cd "$(dirname "$0")/.."
 B=$(bin/build.sh off all | tail -1)
 STABLE=$(python3 -c "import json;print('|'.join('^'+t.split('::')[0]+'\$' for t in json.load(open('/root/.vp/BASELINE.json'))['stable_pass']))")
 cd "$B"
-ctest -j8 --timeout 900 --repeat until-pass:3 -R "$STABLE" --output-junit "$B/baseline.junit.xml" | tail -15
+# a private network namespace keeps the tests' fixed TCP ports free from other jobs on the box (falls back to a plain run)
+if unshare -rn true 2>/dev/null; then
+  STABLE="$STABLE" B="$B" unshare -rn sh -c 'ip link set lo up; ctest -j8 --timeout 900 --repeat until-pass:3 -R "$STABLE" --output-junit "$B/baseline.junit.xml"' | tail -15
+else
+  ctest -j8 --timeout 900 --repeat until-pass:3 -R "$STABLE" --output-junit "$B/baseline.junit.xml" | tail -15
+fi
